@@ -156,5 +156,43 @@ def judge_case(record):
     return judge(record["case"])["viol"]
 
 
+COMMENT_BODIES = ["source: experiments/checkout_button.pyab", "x.pyab", ".pyab", "file.py", "/etc/passwd", "-*- coding: latin-1 -*-",
+                  "vim: set ft=pyab:", "noqa", "fmt: off", "fmt: skip", "type: ignore", "#!/usr/bin/env pyab", "TODO(me): fix", "@author x",
+                  "%s %d {0} {uid}", "\\", "\\n", "C:\\path\\t.pyab", "pragma: no cover", "<<<<<<< HEAD", "=======", "-----",
+                  'return "Z" weighted 100', "}", "{", "} }", "def other {", "salt: 'x'", "splitters: a", "'", '"', "'''", '"""', "é日本",
+                  "\t", "", " ", "*", "**", "/", "//", "///", "\\*", "*\\/", "#", "# python", ";", "-- sql", "<!-- x -->", "\x00", "\x7f", "\ufeff",
+                  "x" * 3000]
+
+
+def fixed_cases():
+    """comment bodies that look like file names, editor / linter directives, merge markers, other languages' comments or
+    pieces of an experiment - as the first thing in the text, the last thing (with and without a final line break), and
+    between tokens"""
+    I, L = M.ident, M.lit_int
+    prog = M.program("exp", M.if_([(M.cmp_(I("a"), ">=", L("2")), M.ret([(M.lit_str("A"), "1"), (M.lit_str("B"), "3")]))],
+                                  M.ret([(M.lit_str("C"), "1"), (M.lit_str("http://d"), "1")])), salt="s", splitters=["uid"])
+    toks = [t for _, t in M.program_tokens(prog)]
+    base = " ".join(toks)
+    inputs = [M.enc_inputs({"uid": "u%d" % i, "a": i % 4}) for i in range(8)]
+    for body in COMMENT_BODIES:
+        line = "//" + body
+        variants = [(line + "\n" + base, ["line-comment", "trivia-before-first-token"]),
+                    (base + " " + line, ["line-comment", "trivia-after-last-token", "line-comment-ends-at-EOF"]),
+                    (base + "\n" + line + "\n", ["line-comment", "trivia-after-last-token"]),
+                    (base + line + "  ", ["line-comment", "trivia-after-last-token", "line-comment-ends-at-EOF"]),
+                    (" ".join(toks[:4]) + " " + line + "\n" + " ".join(toks[4:]), ["line-comment"]),
+                    (" ".join(toks[:-1]) + line + "\n" + toks[-1], ["line-comment"])]
+        if "*/" not in body and "/*" not in body and not body.endswith("*") and not body.startswith("/"):
+            blk = "/*" + body + "*/"
+            variants += [(blk + base, ["block-comment", "trivia-before-first-token"]), (base + blk, ["block-comment", "trivia-after-last-token"]),
+                         (base + "\n" + blk + "\n", ["block-comment", "trivia-after-last-token"]),
+                         (" ".join(toks[:9]) + blk + " ".join(toks[9:]), ["block-comment"])]
+        yield {"prog": prog, "inputs": inputs, "variants": [{"text": t, "tags": g} for t, g in variants], "noise": None}
+
+
 def run(ctx, rec):
+    if ctx.shard == 0:
+        runner.direct_run(ctx, rec, "fixed-comment-contents", fixed_cases(), judge)
+        if rec.violations:
+            return
     runner.hyp_run(ctx, rec, "trivia", cases(), judge, ctx.n(400, 2500))
